@@ -317,6 +317,12 @@ func c08Snapshots(c *vh.Ctx) {
 		// business, not a question of emission)
 		{"bindings-array-by-reference", `_.out({l: _.bindings.l}); _.bindings.l[0] = 9; _.out({l: _.bindings.l}); _.bindings.l[0] = 7; return _.bindings;`, []interface{}{M{"l": []interface{}{1.0}}, M{"l": []interface{}{9.0}}}},
 		{"edit-then-fail", `_.out({order: _.bindings.o}); _.bindings.o.state = "packed"; throw "no";`, nil},
+		// what is returned is a promise that ends up rejected - with an object, which looks like bindings: the action
+		// did not complete successfully, whatever the interpreter makes of promises
+		{"rejected-promise-object", `_.out({a: 1}); return Promise.reject({code: 42});`, nil},
+		{"async-throws-error", `return (async function() { _.out({a: 2}); throw new Error("boom"); })();`, nil},
+		{"async-type-error", `return (async function() { _.out({a: 3}); var n = null; return n.x; })();`, nil},
+		{"async-throws-object", `return (async function() { _.out({a: 4}); throw {code: 42, to: "x"}; })();`, nil},
 	}
 	for _, tc := range cases {
 		for _, via := range []string{"walk", "crew"} {
@@ -399,7 +405,7 @@ func C08(c *vh.Ctx) {
 	if c.Shard == 0 {
 		c.Count("programs", int64(len(progs)))
 	}
-	c.Rule("every ECMAScript program = prefix over {emit m1, emit m2, set} (for programs of up to 3 operations m2 also ranges over 13 message shapes: maps with an emit / to / error key, messages addressed to the host's captain and timers machines, strings, numbers, arrays, empty and nested maps, booleans) (any order, up to the bound) optionally ended by one of {throw a string, throw an object with properties, throw an Error, throw null, return scalar, return array, loop until cancelled (cancel delivered at tick 3 through the harness context), emit an unserialisable value, return null, return fresh bindings, return empty bindings}; placed as the action at position 1, 2 or 3 of a chain of three emitting actions, or as the guard between them; error routing none / ActionErrorNode / ActionErrorBranches (the handler emits and resumes the chain); observed through Spec.Walk (per-stride Emitted and DoEmitted) and through sio.Crew.ProcessMsg (Result.Emitted); oracle: emitted == concatenation of the emits of the successfully completed actions in execution order; every case also for a machine that carries permanent bindings. Plus actions that go on editing what they have emitted (a value taken from the bindings, a local object, an array, the bindings themselves): each reported message is the value at the moment of its _.out. Plus long cascades through a crew (3 to 130 walks, one or two emissions per walk, next to a machine that emits and then fails): Result.Emitted must be, batch by batch, what each walk emitted. non-trivial = program emits and then fails.")
+	c.Rule("every ECMAScript program = prefix over {emit m1, emit m2, set} (for programs of up to 3 operations m2 also ranges over 13 message shapes: maps with an emit / to / error key, messages addressed to the host's captain and timers machines, strings, numbers, arrays, empty and nested maps, booleans) (any order, up to the bound) optionally ended by one of {throw a string, throw an object with properties, throw an Error, throw null, return scalar, return array, loop until cancelled (cancel delivered at tick 3 through the harness context), emit an unserialisable value, return null, return fresh bindings, return empty bindings}; placed as the action at position 1, 2 or 3 of a chain of three emitting actions, or as the guard between them; error routing none / ActionErrorNode / ActionErrorBranches (the handler emits and resumes the chain); observed through Spec.Walk (per-stride Emitted and DoEmitted) and through sio.Crew.ProcessMsg (Result.Emitted); oracle: emitted == concatenation of the emits of the successfully completed actions in execution order; every case also for a machine that carries permanent bindings. Plus actions that go on editing what they have emitted (a value taken from the bindings, a local object, an array, the bindings themselves): each reported message is the value at the moment of its _.out; and actions that emit and return a promise that is rejected with an object (async functions that throw) report nothing. Plus long cascades through a crew (3 to 130 walks, one or two emissions per walk, next to a machine that emits and then fails): Result.Emitted must be, batch by batch, what each walk emitted. non-trivial = program emits and then fails.")
 	var idx uint64
 	for _, p := range progs {
 		for pos := 0; pos <= 3; pos++ {
